@@ -435,8 +435,8 @@ def main(argv):
         log(f"  {sig}")
     if final:
         return 1
-    log(f"{pid} ok: {len(theorems)} theorems checked (axioms: {used_axioms or 'none'}), {len(cases)} cases model==implementation, "
-        f"{len(keys)} distinct non-trivial, {wall:.0f} s")
+    log(f"{pid} ok: {len(theorems)} theorems checked (axioms: {[x.split('.')[-1] for x in used_axioms] or 'none'}), "
+        f"{len(cases)} cases model==implementation, {cov['evaluations']} evaluations, {cov['distinct_nontrivial']} distinct non-trivial, {wall:.0f} s")
     return 0
 
 
